@@ -1,6 +1,7 @@
 /-
-  Proofs/WalBlocks.lean — the log as a sequence of complete transactions (C04): what
-  `Wal::replay_committed` returns for a log made of BeginTx … CommitTx blocks, and appending a block.
+  Proofs/WalBlocks.lean — the log as a sequence of complete transactions and abandoned fragments (C04,
+  C07): what `Wal::replay_committed` returns for a log made of BeginTx … CommitTx blocks with, anywhere
+  between them and at the end, BeginTx … fragments that never got their CommitTx (failed commit, crash).
 -/
 import Nervus.Model.EngineRun
 namespace Nervus.Storage
@@ -11,49 +12,100 @@ def WalRec.isBody : WalRec → Bool
   | .commitTx _ => false
   | _ => true
 
-/-- a log that consists of complete transactions, and the transactions it consists of -/
+/-- a log that consists of complete transactions and abandoned fragments, and the transactions a
+    replay must see: exactly the complete ones, each with the records strictly between its BeginTx and
+    ITS CommitTx -/
 inductive Blocks : List WalRec → List (Nat × List WalRec) → Prop
   | nil : Blocks [] []
   | cons {t : Nat} {body w : List WalRec} {txs : List (Nat × List WalRec)} :
       (∀ r ∈ body, r.isBody = true) → Blocks w txs →
       Blocks (WalRec.beginTx t :: (body ++ WalRec.commitTx t :: w)) ((t, body) :: txs)
+  | abandoned {t : Nat} {body w : List WalRec} {txs : List (Nat × List WalRec)} :
+      (∀ r ∈ body, r.isBody = true) → Blocks w txs →
+      Blocks (WalRec.beginTx t :: (body ++ w)) txs
 
-theorem replayCommitted_body (body rest : List WalRec) (t : Nat) (pend : List WalRec)
+/-- the grouping loop resets its buffer at BeginTx (regenerated fact) -/
+theorem replay_resets_pending : Generated.replayResetsPendingAtBegin = true := by decide
+
+theorem replayWith_body (reset : Bool) (body rest : List WalRec) (t : Nat) (pend : List WalRec)
     (hb : ∀ r ∈ body, r.isBody = true) :
-    replayCommitted (body ++ rest) (some t) pend = replayCommitted rest (some t) (pend ++ body) := by
+    replayCommittedWith reset (body ++ rest) (some t) pend =
+      replayCommittedWith reset rest (some t) (pend ++ body) := by
   induction body generalizing pend with
   | nil => simp
   | cons r rs ih =>
     have hr := hb r List.mem_cons_self
     have ih' := ih (pend ++ [r]) (fun x hx => hb x (List.mem_cons_of_mem _ hx))
     rw [List.cons_append]
-    have key : replayCommitted (r :: (rs ++ rest)) (some t) pend = replayCommitted (rs ++ rest) (some t) (pend ++ [r]) := by
+    have key : replayCommittedWith reset (r :: (rs ++ rest)) (some t) pend =
+        replayCommittedWith reset (rs ++ rest) (some t) (pend ++ [r]) := by
       cases r with
       | beginTx x => simp [WalRec.isBody] at hr
       | commitTx x => simp [WalRec.isBody] at hr
-      | _ => simp only [replayCommitted, Option.isNone_some, Bool.false_eq_true, if_false]
+      | _ => simp only [replayCommittedWith, Option.isNone_some, Bool.false_eq_true, if_false]
     rw [key, ih', List.append_assoc]; rfl
 
-/-- Wal::replay_committed on a log of complete transactions -/
-theorem Blocks.parse {w : List WalRec} {txs : List (Nat × List WalRec)} (h : Blocks w txs) :
-    replayCommitted w none [] = .ok txs := by
+/-- a log of blocks and fragments is empty or starts with a BeginTx: whatever the loop has buffered
+    when it gets there is dropped -/
+theorem Blocks.forget {w : List WalRec} {txs : List (Nat × List WalRec)} (h : Blocks w txs)
+    (cur : Option Nat) (pend : List WalRec) :
+    replayCommittedWith true w cur pend = replayCommittedWith true w none [] := by
+  cases h with
+  | nil => rfl
+  | cons _ _ => simp only [replayCommittedWith, if_true]
+  | abandoned _ _ => simp only [replayCommittedWith, if_true]
+
+/-- replay with the reset: exactly the complete transactions, whatever fragments lie between them -/
+theorem Blocks.parseWith {w : List WalRec} {txs : List (Nat × List WalRec)} (h : Blocks w txs) :
+    replayCommittedWith true w none [] = .ok txs := by
   induction h with
   | nil => rfl
   | cons hb _ ih =>
     rename_i t body w txs _
-    simp only [replayCommitted]
-    rw [replayCommitted_body body _ t [] hb]
-    simp only [List.nil_append, replayCommitted, bne_self_eq_false, Bool.false_eq_true, if_false, ih]
+    simp only [replayCommittedWith, if_true]
+    rw [replayWith_body true body _ t [] hb]
+    simp only [List.nil_append, replayCommittedWith, bne_self_eq_false, Bool.false_eq_true, if_false, ih]
     rfl
+  | abandoned hb hw ih =>
+    rename_i t body w txs
+    simp only [replayCommittedWith, if_true]
+    rw [replayWith_body true body _ t [] hb, hw.forget, ih]
+
+/-- Wal::replay_committed (current source) on such a log -/
+theorem Blocks.parse {w : List WalRec} {txs : List (Nat × List WalRec)} (h : Blocks w txs) :
+    replayCommitted w none [] = .ok txs := by
+  unfold replayCommitted
+  rw [replay_resets_pending]
+  exact h.parseWith
+
+/-- concatenation -/
+theorem Blocks.concat {w w2 : List WalRec} {txs txs2 : List (Nat × List WalRec)} (h : Blocks w txs)
+    (h2 : Blocks w2 txs2) : Blocks (w ++ w2) (txs ++ txs2) := by
+  induction h with
+  | nil => exact h2
+  | cons hb' _ ih =>
+    simp only [List.cons_append, List.append_assoc]
+    exact Blocks.cons hb' ih
+  | abandoned hb' _ ih =>
+    simp only [List.cons_append, List.append_assoc]
+    exact Blocks.abandoned hb' ih
 
 /-- appending one complete transaction -/
 theorem Blocks.append {w : List WalRec} {txs : List (Nat × List WalRec)} (h : Blocks w txs)
     (t : Nat) (body : List WalRec) (hb : ∀ r ∈ body, r.isBody = true) :
-    Blocks (w ++ (WalRec.beginTx t :: (body ++ [WalRec.commitTx t]))) (txs ++ [(t, body)]) := by
-  induction h with
-  | nil => exact Blocks.cons hb Blocks.nil
-  | cons hb' _ ih =>
-    simp only [List.cons_append, List.append_assoc]
-    exact Blocks.cons hb' ih
+    Blocks (w ++ (WalRec.beginTx t :: (body ++ [WalRec.commitTx t]))) (txs ++ [(t, body)]) :=
+  h.concat (Blocks.cons hb Blocks.nil)
+
+/-- appending the part of a transaction that a failed commit leaves: BeginTx and some records, or nothing -/
+theorem Blocks.appendFragment {w : List WalRec} {txs : List (Nat × List WalRec)} (h : Blocks w txs)
+    (t : Nat) (recs : List WalRec) (hb : ∀ r ∈ recs, r.isBody = true) (j : Nat) :
+    Blocks (w ++ (WalRec.beginTx t :: recs).take j) txs := by
+  cases j with
+  | zero => simpa using h
+  | succ k =>
+    have hfrag : Blocks (WalRec.beginTx t :: (recs.take k ++ [])) [] :=
+      Blocks.abandoned (fun r hr => hb r (List.mem_of_mem_take hr)) Blocks.nil
+    have := h.concat hfrag
+    simpa using this
 
 end Nervus.Storage
